@@ -1,4 +1,4 @@
 SPECIFICATION Spec
 CONSTANT Dump = FALSE
-INVARIANTS ValidLayout ResolutionIsFunction L2Scope L2Ser L2Unres L2CmpInv L2DedupInv
+INVARIANTS ValidLayout ResolutionIsFunction L2Scope L2Ser L2Unres L2CmpInv L2DedupInv RT
 CHECK_DEADLOCK FALSE
